@@ -98,6 +98,49 @@ def altScalar (op : String) (args : List String) : Option String :=
       "ok " ++ scH ret ++ " " ++ fmtList (outs.map scH)
   | _, _ => none
 
+/-! ### vector point formulas: the lane-scalarised AlgIR items of `Dalek.Gen.AlgAvx2Edwards` / `AlgIfmaEdwards` -/
+
+/-- `natOps` with the constant table of the two vector modules (the shared 14 entries, then 121666, 243330, 243332) -/
+def natOpsV : FOps Nat := { natOps with const := fun i => (algConstTable ++ [121666, 243330, 243332]).getD i 0 }
+
+def ext4 (s : String) : Option (List Nat) :=
+  match by32 s with
+  | some b => (EPt.decompress b).map fun p => [p.X, p.Y, p.Z, p.T]
+  | none => none
+
+def out4 (r : List Nat) : String := "ok " ++ ptOut ⟨r.getD 0 0, r.getD 1 0, r.getD 2 1, r.getD 3 0⟩
+
+structure VecItems where
+  dbl : AProg
+  add : AProg
+  sub : AProg
+  cached : AProg
+  fromEd : AProg
+  toEd : AProg
+
+def avx2Items : VecItems := ⟨Dalek.Gen.AlgAvx2Edwards.ExtendedPoint_double, Dalek.Gen.AlgAvx2Edwards.ExtendedPoint_add_CachedPoint,
+  Dalek.Gen.AlgAvx2Edwards.ExtendedPoint_sub_CachedPoint, Dalek.Gen.AlgAvx2Edwards.CachedPoint_from_ExtendedPoint,
+  Dalek.Gen.AlgAvx2Edwards.ExtendedPoint_from_EdwardsPoint, Dalek.Gen.AlgAvx2Edwards.EdwardsPoint_from_ExtendedPoint⟩
+def ifmaItems : VecItems := ⟨Dalek.Gen.AlgIfmaEdwards.ExtendedPoint_double, Dalek.Gen.AlgIfmaEdwards.ExtendedPoint_add_CachedPoint,
+  Dalek.Gen.AlgIfmaEdwards.ExtendedPoint_sub_CachedPoint, Dalek.Gen.AlgIfmaEdwards.CachedPoint_from_ExtendedPoint,
+  Dalek.Gen.AlgIfmaEdwards.ExtendedPoint_from_EdwardsPoint, Dalek.Gen.AlgIfmaEdwards.EdwardsPoint_from_ExtendedPoint⟩
+
+/-- `ed.direct.<avx2|ifma>.<double|add|sub>` computed by the translated parallel formulas (the same composition as the hooks:
+`EdwardsPoint → ExtendedPoint`, `CachedPoint::from` for the second operand, the formula, and back) -/
+def altDirect (it : VecItems) (alg : String) (args : List String) : Option String :=
+  let rv := fun (p : AProg) (ins : List Nat) => p.run natOpsV ins
+  match alg, args with
+  | "double", [P] => (ext4 P).map fun p => out4 (rv it.toEd (rv it.dbl (rv it.fromEd p)))
+  | "add", [P, Q] =>
+      match ext4 P, ext4 Q with
+      | some p, some q => some (out4 (rv it.toEd (rv it.add (rv it.fromEd p ++ rv it.cached (rv it.fromEd q)))))
+      | _, _ => none
+  | "sub", [P, Q] =>
+      match ext4 P, ext4 Q with
+      | some p, some q => some (out4 (rv it.toEd (rv it.sub (rv it.fromEd p ++ rv it.cached (rv it.fromEd q)))))
+      | _, _ => none
+  | _, _ => none
+
 /-- the response the translated code would give, for the ops that have a translated counterpart -/
 def alt (op : String) (args : List String) : Option String :=
   match op, args with
@@ -140,6 +183,8 @@ def alt (op : String) (args : List String) : Option String :=
     match op.splitOn "." with
     | ["vfel", "avx2", name] => altVec name args
     | "sc" :: _ => altScalar op args
+    | ["ed", "direct", "avx2", alg] => altDirect avx2Items alg args
+    | ["ed", "direct", "ifma", alg] => altDirect ifmaItems alg args
     | _ => none
 
 /-- combine the specification answer with the translated one -/
